@@ -149,8 +149,8 @@ theorem readValuesRd_ok (en : Endian) (t : NpyTy) (fuel : Nat) (r : Rd) (h : Rd.
 
 /-- the detection prefix (`Model/Detect.lean`) is the first 64 KiB whatever the chunk schedule. -/
 theorem readPrefix_ok (r : Rd) (h : Rd.Ok r) : ∃ r', readPrefix r = .ok (r.data.take 65536, r') := by
-  obtain ⟨r', he, _⟩ := Rd.readToEnd_schedule_free (r.data.length + 1) r h (Nat.lt_succ_self _)
-  exact ⟨r', by unfold readPrefix; rw [he]⟩
+  obtain ⟨r', he, _⟩ := readPrefix_ok_rest r h
+  exact ⟨r', he⟩
 
 /-! ## readers with a failure offset -/
 
